@@ -145,7 +145,10 @@ class ParaSystem():
             if hint_ty == INV:
                 inv_vars, inv = self.invs[hint_inv_id]
                 inv_var_nms = [v.name for v in inv_vars]
-                subst = Inst((nm, Var(subst_var, NatType)) for nm, subst_var in zip(inv_var_nms, subst_vars))
+                # The parameters of an invariant are variables (not schematic variables)
+                subst = Inst()
+                for nm, subst_var in zip(inv_var_nms, subst_vars):
+                    subst.var_inst[nm] = Var(subst_var, NatType)
                 inv_subst = inv.subst(subst)
                 return Implies(inv_subst, guard, inv_after)
 
